@@ -110,6 +110,24 @@ def grid():
     return out
 
 
+def error_propagation():
+    """An undefined name or a zero divisor anywhere in a tree fails the build: on either side of every operator, under
+    every unary operator and function, also where the other operand already decides the value."""
+    out = []
+    bad = [sym("nosuch"), binop("/", num(1), num(0)), binop("%", num(7), num(0)), binop("*", num(MAXI), num(2))]
+    for b in bad:
+        for o in BINOPS:
+            for other in (0, 1, 5):
+                out.append(ExprCase(binop(o, num(other), b), tag="errors." + o))
+                out.append(ExprCase(binop(o, b, num(other)), tag="errors." + o))
+            out.append(ExprCase(binop(o, binop("+", num(1), b), num(2)), tag="errors." + o))
+        for u in UNOPS:
+            out.append(ExprCase(un(u, b), tag="errors.un"))
+        for f in FUNCS:
+            out.append(ExprCase(fn(f, b), tag="errors.fn"))
+    return out
+
+
 def random_tree(rnd, depth, g):
     if depth == 0 or rnd.random() < 0.25:
         return leaf(rnd.choice(g)) if rnd.random() < 0.5 else num(rnd.randrange(0, 20))
@@ -127,7 +145,7 @@ def check(prop, tier, seed):
     scratch = Scratch(prop)
     v = Verdict(prop, tier, seed, "model_checking")
     try:
-        cases = grid() + shapes(tier) + spelled(rnd, tier)
+        cases = grid() + shapes(tier) + spelled(rnd, tier) + error_propagation()
         g = grid_values()
         for _ in range(3000 if tier == "quick" else 60000):
             cases.append(ExprCase(random_tree(rnd, rnd.randrange(2, 7), g), tag="random"))
@@ -177,7 +195,7 @@ def check(prop, tier, seed):
             "evaluations": len(events), "distinct_nontrivial": len({c.src for c in cases}),
             "rule": "grid: 18 binary operators x G x G, 3 unary and 8 functions x G with G = %d boundary values; all depth-2 operator shapes with "
                     "small leaves rendered with only the required parentheses; leaves in 6 radices / as .equ symbols / as labels in 3 letter cases; "
-                    "seeded random trees of depth 2-6; distinct = distinct sources" % len(g),
+                    "an undefined name / zero divisor / overflow on either side of every operator; seeded random trees of depth 2-6; distinct = distinct sources" % len(g),
             "tags": _count(c.tag.split(".")[0] for c in cases),
             "observed_ok": len(oks), "observed_err": len(errs), "observed_other": len(events) - len(oks) - len(errs),
             "rejected_events": len([i for i in rejected if i < len(events)]),
